@@ -182,8 +182,15 @@ fn gen_case(r: &mut Rng, i: usize) -> Case {
         }
     }
     let c = r.range(-1, 4);
-    let lim = r.range(0, 5);
+    // boundary-heavy LIMIT: half of the time exactly the row count of the first chunk(s) of t
+    let mut cum = vec![];
+    let mut acc = 0i64;
+    for st in setup.iter().filter(|s| s.starts_with("insert into t")) {
+        acc += st.matches('(').count() as i64;
+        cum.push(acc);
+    }
     let off = r.range(0, 3);
+    let lim = if r.chance(1, 2) && !cum.is_empty() { (*r.pick(&cum) - off).max(0) } else { r.range(0, 5) };
     let cmp = *r.pick(&[">", "<", ">=", "<>", "="]);
     let templates: Vec<String> = vec![
         format!("select a, b from t where a {cmp} {c}"),
